@@ -2,6 +2,8 @@
 # C12 check: builds penguin-mux from a scratch copy of /repo's working tree with the crate's loom shim pointed at a
 # shuttle-backed facade and runs the in-crate test module verif_c12.rs. Nothing in /repo is touched.
 #   run.sh quick|thorough [--replay <path>]     run.sh --prebuild
+#   run.sh quick|thorough --as C03|C04           reduced run attributed to C03 / C04 (their thread-level part)
+#   run.sh quick|thorough --test verif_c07_alloc --property C07
 set -u
 ROOT=/verif
 OV=$ROOT/overlay/c12
@@ -11,12 +13,15 @@ export CARGO_TARGET_DIR=$ROOT/target/c12
 # the repository's release profile uses LTO with one codegen unit (minutes per build); not needed here
 export CARGO_PROFILE_RELEASE_LTO=false CARGO_PROFILE_RELEASE_CODEGEN_UNITS=16 CARGO_PROFILE_RELEASE_STRIP=false CARGO_PROFILE_RELEASE_DEBUG_ASSERTIONS=false
 mkdir -p "$ROOT/target" "$ROOT/evidence" "$ROOT/replays"
-TIER=quick; REPLAY=""; PREBUILD=0
+TIER=quick; REPLAY=""; PREBUILD=0; TESTNAME=verif_c12::verif_c12; PROP=C12
 while [ $# -gt 0 ]; do
   case "$1" in
     quick|thorough) TIER=$1 ;;
     --replay) REPLAY=$2; shift ;;
     --prebuild) PREBUILD=1 ;;
+    --test) TESTNAME=$2; shift ;;
+    --property) PROP=$2; shift ;;
+    --as) PROP=$2; export VERIF_C12_AS=$2; shift ;;
   esac
   shift
 done
@@ -49,17 +54,17 @@ if [ $PREBUILD -eq 1 ]; then
   rm -f "$LOG"; exit 0
 fi
 if ! cargo test -p penguin-mux --lib --release --no-default-features --features std,tokio --no-run >"$LOG" 2>&1; then
-  echo "BUILD-FAILED property=C12: the overlay does not build against the current /repo tree"
+  echo "BUILD-FAILED property=$PROP: the overlay does not build against the current /repo tree"
   grep -E "^error" -A 8 "$LOG" | head -60
   rm -f "$LOG"; exit 3
 fi
 if [ "$TIER" = thorough ]; then WD="${VERIF_WATCHDOG:-7200}"; else WD="${VERIF_WATCHDOG:-1200}"; fi
 VERIF_TIER=$TIER VERIF_C12_REPLAY="$REPLAY" VERIF_C12_OUT=$ROOT timeout --signal=KILL "$WD" \
-  cargo test -p penguin-mux --lib --release --no-default-features --features std,tokio verif_c12 -- --nocapture --test-threads 1 >"$LOG" 2>&1
+  cargo test -p penguin-mux --lib --release --no-default-features --features std,tokio "$TESTNAME" -- --nocapture --test-threads 1 >"$LOG" 2>&1
 rc=$?
 grep -E "^(VIOLATION|RESULT|REPLAY|INCONCLUSIVE|KNOWN-FINDING|  scenario)" "$LOG"
-if [ $rc -eq 137 ]; then echo "INCONCLUSIVE property=C12 watchdog expired"; rm -f "$LOG"; exit 2; fi
-if grep -q "^VIOLATION property=C12" "$LOG"; then rm -f "$LOG"; exit 1; fi
+if [ $rc -eq 137 ]; then echo "INCONCLUSIVE property=$PROP watchdog expired"; rm -f "$LOG"; exit 2; fi
+if grep -q "^VIOLATION property=$PROP" "$LOG"; then rm -f "$LOG"; exit 1; fi
 if grep -q "^INCONCLUSIVE" "$LOG"; then rm -f "$LOG"; exit 2; fi
-if [ $rc -ne 0 ]; then echo "C12 test run failed without a verdict:"; tail -30 "$LOG"; rm -f "$LOG"; exit 3; fi
+if [ $rc -ne 0 ]; then echo "$PROP overlay test run failed without a verdict:"; tail -30 "$LOG"; rm -f "$LOG"; exit 3; fi
 rm -f "$LOG"; exit 0
